@@ -47,3 +47,31 @@ for u in UNITS:
         u['drop_checks'] = ['--signed-overflow-check']
         u['cbmc_flags'] = ['--no-signed-overflow-check']
         u['assumptions'] = [u['name'] + ': negation/decrement of the most negative long wraps (gcc semantics; formally signed overflow)']
+
+# ------------------------------------------------------------------ __gmp_extract_double: every positive finite double, normal or subnormal (C11: "doubles compared exactly")
+# d = m * 2^p with the integer m = 2^52 + M (normal, p = E - 1075) or m = M (subnormal, p = -1074) read off the IEEE-754 fields; the function must deliver
+# {rp[1], rp[0]} * 2^(64 (e - 2)) == m * 2^p exactly, with a non-zero top limb.  Full domain (all 2^63 - 2^52 - 1 bit patterns); the subnormal normalisation loop runs
+# at most 53 times and is unwound completely (unwinding assertions on).  mpz_set_d, mpz_cmp_d, mpq_set_d, mpf_set_d, mpf_cmp_d all start from this function.
+UNITS.append(dict(
+    name='extract_double', props=['C11', 'C04', 'C15'], source='extract-dbl.c', contracts=['mpn.h'],
+    contract_text='''int __gmp_extract_double (mp_ptr rp, double d)
+__CPROVER_requires (V_W_OK (rp, 2) && d > 0.0 && d <= 1.7976931348623157e308)
+__CPROVER_assigns (__CPROVER_object_upto (rp, 16))
+__CPROVER_ensures (rp[1] != 0);
+''', enforce=['__gmp_extract_double'], unwind=66,
+    functions={'__gmp_extract_double': dict(loops={0: 'unwind', 1: 'unwind'})},
+    assumptions=['IEEE-754 binary64 layout of double as read through union ieee_double_extract (the build\'s own definition); d > 0 and finite (callers filter 0, NaN, Inf and take |d|)',
+                 'the two loops (MPN_ZERO of 2 limbs; subnormal normalisation, at most 53 rounds) are unwound completely, unwinding assertions on'],
+    harness='''void h_extract_double (void) {
+  union ieee_double_extract x; mp_limb_t R[2];
+  unsigned long M = nondet_ulong (); unsigned E = (unsigned) nondet_ulong ();
+  __CPROVER_assume (M < (1UL << 52) && E <= 2046 && (E != 0 || M != 0));
+  x.s.sig = 0; x.s.exp = E; x.s.manh = (unsigned) (M >> 32); x.s.manl = (unsigned) M;
+  int e = __gmp_extract_double (R, x.d);
+  unsigned long m = E ? ((1UL << 52) | M) : M;
+  long p = E ? (long) E - 1075 : -1074;
+  long t = p - 64 * ((long) e - 2);
+  __CPROVER_assert (0 <= t && t <= 127, "[C11] extract_double: exponent e places the significand inside the two limbs");
+  __CPROVER_assert (((V_u128) R[1] << 64 | R[0]) == ((V_u128) m << (t & 127)), "[C11] extract_double: {rp[1],rp[0]} * 2^(64(e-2)) == d exactly (normal and subnormal)");
+}''', timeout=600,
+    selftest=[('__gmp_extract_double', r'exp -= 1022;', 'exp -= 1023;'), ('__gmp_extract_double', r'exp = 1;\s*do', 'exp = 0; do'), ('__gmp_extract_double', r'\(\(mp_limb_t\) x\.s\.manl << 11\)', '((mp_limb_t) x.s.manl << 10)')]))
